@@ -1015,7 +1015,33 @@ def sequences_bounded(seed, n_seq):
 _jobs15 = jobs
 
 
+# return-address column of a CIE as GCC / LLVM emit it (and the psABIs define it): x86-64 RA = 16, AArch64 x30 = 30, MIPS $ra = 31.
+# Cross-checked in this sandbox with clang-14 --target=<triple> -funwind-tables -c and llvm-dwarfdump-14 --eh-frame.
+STANDARD_RETURN_COLUMN = {gtirb.Module.ISA.X64: 16, gtirb.Module.ISA.ARM64: 30, gtirb.Module.ISA.MIPS32: 31}
+
+
+def return_column_harness(ctx):
+    """the state of a procedure without .cfi_return_column carries the ABI's return-address column (E over the ELF ABIs), and an explicit
+    .cfi_return_column replaces it for that procedure only"""
+    isa = list(STANDARD_RETURN_COLUMN)[ctx.choose(len(STANDARD_RETURN_COLUMN), "isa")]
+    m, block = mk_module(isa, gtirb.Module.FileFormat.ELF)
+    b2 = gtirb.CodeBlock(offset=4, size=4)          # the interval of mk_module holds 8 bytes, its block the first 4
+    b2.byte_interval = block.byte_interval
+    U = NULL_UUID
+    tab = {gtirb.Offset(block, 0): [(".cfi_startproc", [], U)], gtirb.Offset(block, 1): [(".cfi_return_column", [5], U)], gtirb.Offset(block, 2): [(".cfi_undefined", [1], U)],
+           gtirb.Offset(block, 4): [(".cfi_endproc", [], U)],
+           gtirb.Offset(b2, 0): [(".cfi_startproc", [], U)], gtirb.Offset(b2, 1): [(".cfi_undefined", [1], U)], gtirb.Offset(b2, 4): [(".cfi_endproc", [], U)]}
+    _auxdata.cfi_directives.set(m, tab)
+    got = [(blk is b2, off, None if st is None else st.return_column) for blk, off, st in E.evaluate_cfi_directives(m, [block, b2])]
+    want = STANDARD_RETURN_COLUMN[isa]
+    ctx.prove("return-column/default-is-the-ABI's-return-address-register-and-an-explicit-one-lasts-to-the-end-of-its-procedure",
+              z3.BoolVal(got == [(False, 0, want), (False, 1, 5), (False, 2, 5), (False, 4, None), (True, 0, want), (True, 1, want), (True, 4, None)]),
+              note="%s: %s (standard column %d)" % (isa.name, got, want))
+    ctx.cover("enumerated")
+
+
 def jobs(tier="quick", seed=0):
+    yield Job("C15/return-column", return_column_harness, kind="E", func="gtirb_rewriting.abi:*.default_dwarf_eh_return_column + dwarf.cfi_eval:evaluate_cfi_directives", expect_cover=("enumerated",))
     yield from _jobs15(tier, seed)
     # the contract of parse_cfi_instructions that the .cfi_escape obligations above ASSUME (modular stub) is discharged here too,
     # so that C15 does not rest on an assumption checked only under another property
